@@ -4,6 +4,7 @@ import (
 	"bytes"
 	"errors"
 	"fmt"
+	"os"
 	"path/filepath"
 	"reflect"
 	"sort"
@@ -189,6 +190,9 @@ type Op struct {
 	N       int    `json:"n"`    // insert: number of points
 	Payload int    `json:"payload"`
 	Reuse   int    `json:"reuse"` // insert: number of ids reused from earlier successful inserts (collisions)
+	// Break > 0: during this insert the database file of one existing shard of the collection (number
+	// (Break-1) mod #shards) cannot be opened; it is put back right after the call
+	Break int `json:"break,omitempty"`
 }
 
 type QuotaCase struct {
@@ -209,7 +213,8 @@ func genQuota(t *rapid.T) QuotaCase {
 			continue
 		}
 		c.Ops = append(c.Ops, Op{Kind: "insert", Col: rapid.IntRange(0, 3).Draw(t, fmt.Sprintf("c%d", i)), N: rapid.IntRange(0, 12).Draw(t, fmt.Sprintf("n%d", i)),
-			Payload: rapid.SampledFrom([]int{0, 10, 200}).Draw(t, fmt.Sprintf("p%d", i)), Reuse: rapid.SampledFrom([]int{0, 0, 0, 1, 2}).Draw(t, fmt.Sprintf("r%d", i))})
+			Payload: rapid.SampledFrom([]int{0, 10, 200}).Draw(t, fmt.Sprintf("p%d", i)), Reuse: rapid.SampledFrom([]int{0, 0, 0, 1, 2}).Draw(t, fmt.Sprintf("r%d", i)),
+			Break: rapid.SampledFrom([]int{0, 0, 0, 0, 0, 1, 2, 3}).Draw(t, fmt.Sprintf("b%d", i))})
 	}
 	return c
 }
@@ -339,10 +344,39 @@ func execQuota(c QuotaCase) (res vt.Result) {
 				points = append(points, models.Point{Id: id, Data: model.Encode(model.Doc{"n": int64(i), "pad": strings.Repeat("x", op.Payload)})})
 			}
 			requested := append([]models.Point(nil), points...)
+			broken, brokenFile := "", ""
+			if op.Break > 0 && len(before.shards) > 0 {
+				broken = before.shards[(op.Break-1)%len(before.shards)]
+				brokenFile = drive.ShardFile(filepath.Join(dir, "node"), user, colName(op.Col), broken)
+				node.VerifShardManager().VerifUnloadAll()
+				if err := os.Rename(brokenFile, brokenFile+".aside"); err != nil {
+					return fail("harness: %v", err)
+				}
+				if err := os.Mkdir(brokenFile, 0755); err != nil {
+					return fail("harness: %v", err)
+				}
+			}
 			failed, err := node.InsertPoints(col, points)
+			if broken != "" {
+				node.VerifShardManager().VerifUnloadAll()
+				if rerr := os.Remove(brokenFile); rerr != nil {
+					return fail("harness: %v", rerr)
+				}
+				if rerr := os.Rename(brokenFile+".aside", brokenFile); rerr != nil {
+					return fail("harness: %v", rerr)
+				}
+				rec.Count("inserts_with_an_unavailable_shard", 1)
+			}
 			after, oerr := observe(op.Col)
 			if oerr != nil {
 				return fail("observe: %v", oerr)
+			}
+			if broken != "" && err != nil {
+				// with a shard out of reach the request may be refused, then without side effects
+				if fmt.Sprint(before) != fmt.Sprint(after) {
+					return fail("an insert refused while shard %s was unavailable (%v) changed the state: %v -> %v", broken, err, before, after)
+				}
+				continue
 			}
 			if total(before)+int64(op.N) > c.MaxPoints {
 				if !errors.Is(err, cluster.ErrQuotaReached) {
